@@ -488,16 +488,18 @@ def total_qubits(x):
 
 
 def own_qubits(x):
+    """one entry whose (distinct, integer) qubits fill the register exactly: the register is large enough for the highest
+    qubit index (that test comes BEFORE the shortcut in extend) and has as many qubits as the pulse"""
     if len(x['entries']) != 1:
         return False
     q = x['entries'][0]['qubits']
     if q[0] == 'float':
         return False
-    nq = 1 if q[0] == 'int' else len(q[1])
-    try:
-        return total_qubits(x) == nq
-    except Exception:       # noqa
+    qs = [q[1]] if q[0] == 'int' else list(q[1])
+    if len(set(qs)) != len(qs) or not qs:
         return False
+    n_reg = x['N'] if x['N'] is not None else max(qs) + 1
+    return max(qs) + 1 <= n_reg and n_reg == len(qs)
 
 
 def shortcut_applies(x):
@@ -514,6 +516,28 @@ def shortcut_skips(x):
     e = x['entries'][0] if x['entries'] else None
     return own_qubits(x) and e['pulse']['ispulse'] and e['pulse']['d'] == x['dpq'] ** (1 if e['qubits'][0] == 'int' else len(e['qubits'][1])) \
         and (x['add'] is not None or e['mapping'] is not None)
+
+
+def single_entry_cases():
+    """one pulse, every combination of qubit tuple and register size around the shortcut 'N == number of the pulse's
+    qubits': (descriptor, documented)"""
+    out = []
+
+    def x_of(qubits, N):
+        nq = 1 if qubits[0] == 'int' else len(qubits[1])
+        p = dict(ispulse=True, d=2 ** nq, basis=0, c=[dict(op=0, id='c')], n=[dict(op=0, id='n', sens=2 ** 30)], dt=0,
+                 omega=None, cm=False, pc=False)
+        return dict(entries=[dict(pulse=p, qubits=qubits, mapping=None)], ndt=2, N=N, dpq=2, add=None, cache_diag=None,
+                    cache_ff=None, omega_given=False)
+    for qubits in (('int', 0), ('int', 1), ('int', 3), ('tuple', [0]), ('tuple', [1]), ('tuple', [0, 1]), ('tuple', [1, 0]), ('tuple', [1, 2]),
+                   ('tuple', [2, 1]), ('tuple', [0, 2]), ('tuple', [3, 0]), ('tuple', [0, 1, 2]), ('tuple', [1, 2, 3]), ('tuple', [2, 0, 1])):
+        qs = [qubits[1]] if qubits[0] == 'int' else qubits[1]
+        for N in (None, len(qs), max(qs), max(qs) + 1, max(qs) + 2):
+            if N is not None and N < 1:
+                continue
+            doc = ('ValueError',) if (N is not None and max(qs) + 1 > N) else ()
+            out.append((x_of(qubits, N), doc))
+    return out
 
 
 def extend_corruptions(x):
@@ -1128,6 +1152,10 @@ def collect_cases(ctx, thorough):
             elif shortcut_applies(c):
                 doc = ()                # a single pulse on its own qubits is returned as it is, whatever the cache flags
             col.case('extend', nm, 'validate_extend %s' % extend_c(c), real_extend(c), doc, c, sig)
+        if b == 0:
+            for x1, doc in single_entry_cases():
+                nm = 'single-entry-register-too-small' if doc else ('single-entry-own-qubits' if own_qubits(x1) else 'single-entry')
+                col.case('extend', nm, 'validate_extend %s' % extend_c(x1), real_extend(x1), doc, x1)
         m = gen_remap(r)
         col.case('remap', 'valid', 'validate_remap %s' % remap_c(m), real_remap(m), (), m)
         for nm, doc, c in remap_corruptions(m):
